@@ -8,7 +8,7 @@
  *   dgram <path> <fill 0|1>          bound, never read datagram socket; fill=1: queue filled until EAGAIN
  *   devlog <path> <fill 0|1>         same, and connect("/dev/log") is redirected to it (by librecorder)
  *   stdfd <1|2> <pipe-noreader|pipe-full|null|file:<path>>      what the CALLER's descriptor is
- *   stdin <null|closed>
+ *   stdin <null|closed|pty>
  *   uid <n>                          drop to uid/gid n (mode-000 sinks are only effective for non-root)
  *   call <api> <path> <argv> <envp> <ret> <errno> <plan>        one wrapped call under fault plan <plan> ("-" none)
  * Record lines (besides those of libfault "io/mark" and librecorder "real"):
@@ -20,6 +20,7 @@
 #include <errno.h>
 #include <fcntl.h>
 #include <grp.h>
+#include <pty.h>
 #include <signal.h>
 #include <stdarg.h>
 #include <stdint.h>
@@ -158,6 +159,10 @@ static void handle_line(int nf, char **f) {
     } else if (!strcmp(f[0], "stdin") && nf >= 2) {
         if (!strcmp(f[1], "closed")) close(0);
         else if (!strcmp(f[1], "null")) { int fd = open("/dev/null", O_RDONLY); dup2(fd, 0); close(fd); }
+        else if (!strcmp(f[1], "pty")) {   /* a terminal on descriptor 0 (not the controlling one): ttyname_r succeeds */
+            int m, sl; if (openpty(&m, &sl, NULL, NULL, NULL)) { recf("note\tno-pty\n"); return; }
+            dup2(sl, 0); close(sl); fcntl(m, F_DUPFD_CLOEXEC, 170); close(m);
+        }
     } else if (!strcmp(f[0], "uid") && nf >= 2) { uid_t u = (uid_t) atol(f[1]); if (setgroups(0, NULL)) {} if (setgid(u) || setuid(u)) recf("note\tsetuid-failed\n");
     } else if (!strcmp(f[0], "timeout") && nf >= 2) { CALL_TIMEOUT = atoi(f[1]);
     } else if (!strcmp(f[0], "call")) { do_call(nf, f);
